@@ -36,6 +36,7 @@ ASSUMPTIONS = ['entries are small Gaussian integers / dyadic rationals: float ar
                'matrix units as local operator basis: formal sum = dense operator']
 
 N_PROCS = min(12, os.cpu_count() or 1)
+ANCHOR_COVERAGE_NOTE = 'pending'
 
 
 def nontrivial(case):
@@ -125,6 +126,10 @@ def work_chunk(args):
     for n, case in enumerate(cases):
         rec = {'case': case, 'fails': [], 'facts': {}, 'skipped': None}
         out.append(rec)
+        if case.get('kind') == 'api':
+            from harness import c11_api
+            rec['fails'], rec['facts'] = c11_api.run_case(case)
+            continue
         try:
             real = c11_check.real_side(case)
         except Exception as e:  # noqa: BLE001
@@ -190,13 +195,14 @@ def run_cases(ctx, cases, use_model=True, res=None):
             if rec['skipped']:
                 res.count('skipped=' + rec['skipped'])
                 continue
-            res.note_case(case, nontrivial(case))
-            for h in case_hist(case):
+            api = case.get('kind') == 'api'
+            res.note_case(case, True if api else nontrivial(case))
+            for h in (['api_scenario=' + case.get('name', '?')] if api else case_hist(case)):
                 res.count(h)
             for k, v in rec['facts'].items():
                 if v is True:
                     res.count('checked=' + k)
-            if use_model:
+            if use_model and not api:
                 res.traces_validated += 1
             for kind, sig, detail in rec['fails']:
                 c = rec.get('shrunk', {}).get(sig, case)
@@ -240,6 +246,12 @@ def run(ctx):
         done += n
         k += 1
     res.extra['generated_cases'] = done
+    # API scenarios (constructors / accessors / options outside the generated cases; dense oracles only)
+    from harness import c11_api
+    n_api = 80 if ctx.quick else 1200
+    run_cases(ctx, c11_api.gen_cases(ctx.sub_rng('api'), n_api), True, res)
+    res.extra['api_scenarios'] = n_api
+    res.extra['anchor_coverage_note'] = ANCHOR_COVERAGE_NOTE
     return res
 
 
